@@ -113,7 +113,7 @@ func (st sstate) String() string {
 			continue
 		}
 		var ps []string
-		for _, t := range []int64{B + 5, B + 10, B + 20, B + 30} {
+		for _, t := range []int64{B + 5, B + 10, B + 20, B + 30, B + 40} {
 			if v, ok := m[t]; ok {
 				ps = append(ps, fmt.Sprintf("B+%d=%g", t-B, v))
 			}
@@ -296,13 +296,13 @@ func judgeFinal(sc Scenario, o sobs, allowed []sstate, add func(sig, msg string)
 }
 
 // branchHere selects the points at which schedules branch: the synchronisation operations of Store, epochTracker,
-// guard, Shard, tsm1.Engine and tsm1.Cache (and the harness steps). Pure size/idle bookkeeping atomics are passed
+// guard, Shard, tsm1.Engine and tsm1.Cache (and the harness steps). The pure loads of IsIdle / Cache.Size / Cache.init are passed
 // silently, like every lock of the other files (all are modelled: a contended one still disables the thread).
 func branchHere(kind vrt.OpKind, label string) bool {
 	if kind == vrt.OpHook {
 		return true
 	}
-	for _, s := range []string{"IsIdle", "(*Cache).Size", "(*Cache).init", "increaseSize", "decreaseSize"} {
+	for _, s := range []string{"IsIdle", "(*Cache).Size", "(*Cache).init"} {
 		if strings.Contains(label, s) {
 			return false
 		}
@@ -454,7 +454,31 @@ func runScenario(t *testing.T, sc Scenario, prefix []int) (*vrt.Result, sresult)
 			add("nonconflicting-write-blocked", "the writer ("+sc.Writer+") parked in guard.Wait on the guard installed by the running delete (tsdb/store.go: WaitDelete(newGuard(min, max, nil, nil)) – the guard only knows the time range)")
 		}
 		o := observe(f, b)
+		nv := len(res.verdicts)
 		judgeFinal(sc, o, allowed, add)
+		if len(res.verdicts) == nv {
+			// data and index agree: nothing may be stored that the index does not know. Probe: one more point is
+			// written (afterwards, sequentially) to the writer's series at B+40 – outside the range "lo", after the
+			// delete "all" – which re-creates the series in the index if it was dropped; the bucket must then read
+			// exactly as before plus that point. A point that was invisible and now shows up was stored without its
+			// series being indexed.
+			wk, wtags, _ := sc.writerPoint()
+			if err := f.Write(b, []mini.Point{{M: "m0", Tags: wtags, Fields: map[string]any{"f0": 7.0}, T: B + 40}}); err != nil {
+				add("probe-write-error", err.Error())
+			} else {
+				want := o.data.clone()
+				if want[wk] == nil {
+					want[wk] = map[int64]float64{}
+				}
+				want[wk][B+40] = 7
+				o2 := observe(f, b)
+				if o2.err != "" {
+					add("read-error", o2.err)
+				} else if o2.data.String() != want.String() {
+					add("hidden-data-resurfaces", fmt.Sprintf("after delete||write the bucket read {%s}; after one more (sequential) write of %s @ B+40 it reads {%s} instead of {%s}: a point was stored for a series the index did not list", o.data.String(), wk, o2.data.String(), want.String()))
+				}
+			}
+		}
 		order := "overlap"
 		if wRet < delCall {
 			order = "write-first"
@@ -642,5 +666,19 @@ func replaySchedule(t *testing.T, raw json.RawMessage) (bool, string) {
 	return bad, cs.Scenario.String() + "\n" + strings.Join(v, "\n") + "\noutcome=" + res.outcome
 }
 
-var rule = "TODO"
-var assumptions = []string{}
+var rule = "PART 1 (histories; real storage.Engine.DeleteBucketRangePredicate → tsdb.Store.DeleteSeriesWithPredicate as POST /api/v2/delete calls it, mini fixture). " +
+	"Series pool m0{a=x}, m0{a=y,b=z}, m1{a=x,b=z}, m1{a=y}; fields f0(float) f1(integer), field layout fixed per series (m0{a=x}: both fields on every slot; m0{a=y,b=z}: f0 on even, f1 on odd slots; m1{a=x,b=z}: f0; m1{a=y}: f1); 4 time slots B+10, B+1h-1 | B+1h, B+1h+10 in two 1h shard groups; layouts cache / tsm (one TSM file per shard) / mixed (even slots TSM, odd slots cache). " +
+	"Datasets: every series absent / shard A only / shard B only / both (255 sets). Deletes = ranges × predicates, complete product: ranges quick {all, [t1,t1], [t1,t2] across the boundary, [t0,t1] one shard, [t0+1,t3-1], empty [t0+1,t1-1]} + thorough {[t2,t2], [t0,t0], [t2,t3], [t2,MaxNanoTime], [MinNanoTime,t1], inverted [t2,t1]}; predicates quick {none, _measurement=m0, a=x, b=z, m0 AND a=y, m1 AND a=x, _measurement=m1, a!=x} + thorough {a=y, m0 AND a=x, m1 AND b=z, a=x AND b=z, _measurement=mz (absent), m0 AND a=q (no match), _measurement!=m0, _measurement!=m1, m1 AND a!=x}. " +
+	"Depth 1: quick = the 5 sets with ≥3 series all in both shards × {mixed,tsm} + sets [A,both,B,both] and [both,B,A,A] × {mixed,cache} = 14 datasets × 48 deletes; thorough = all 255 sets, set i in layout (cache,tsm,mixed)[i mod 3], the 15 sets whose series are all in both shards in all 3 layouts = 285 datasets × 204 deletes. " +
+	"Depth ≥2 on the full dataset: delete ; mid ; delete for every ordered pair of a reduced delete family (quick 3 ranges × 4 predicates = 12, thorough 5 × 5 = 25) × mid ∈ {nothing, rewrite all points with new values} (quick, layout mixed) + {rewrite+snapshot, snapshot} (thorough, 3 layouts). After EVERY operation: ReadFilter of the whole bucket and of each shard-group range, Store.MeasurementNames / TagKeys / TagValues (with and without a WHERE filter) / SeriesCardinality, InfluxQL SHOW SERIES / SHOW MEASUREMENTS, reads.Store TagKeys / TagValues(_measurement, a, b) for the whole bucket and per shard-group range, all compared with the statement's model. evaluations = verified operations; non-trivial = deletes that remove ≥1 point. " +
+	"PART 2 (schedules; vsched, every tsdb/tsm1/tsi1 file that uses sync compiled against the modelled primitives). One shard holding s0=m0{a=x} (1 or 2 points) and s1=m0{a=y,b=z}; thread 1 = bucket delete `_measurement=m0 AND a=x` over [B,B+10] or everything (Engine.DeleteBucketRangePredicate), thread 2 = Store.WriteToShard of one point: other-series (s1 in range), match-out (s0 outside the range), match-in (s0 in range), new-match-in (new series m0{a=x,c=n} in range); layouts cache / tsm: quick 11 scenarios, thorough 28. EVERY schedule with ≤ B preemptions (B=1 quick, 2 thorough; a switch when the running thread blocks or ends is free) branching at the sync/atomic operations of Store, epochTracker, guard, Shard, tsm1.Engine, tsm1.Cache is executed; afterwards the bucket is read and SHOW SERIES / SeriesCardinality / MeasurementNames queried. Non-conflicting writes: final state = delete and write both applied, and the writer never parks in guard.Wait; conflicting writes: final state = one of the two orders (the real-time order when the calls do not overlap), and a series is listed iff it has data. states = decision nodes, transitions = scheduling steps, traces = executions."
+
+var assumptions = []string{
+	"delete range is inclusive on both ends ([min,max], as tsm1.Engine.DeleteSeriesRange documents); a delete predicate selects series by measurement and tags only (delete by field is rejected by the API)",
+	"`!=` delete predicates are only used on keys that every series of the pool carries (no three-valued cases)",
+	"a series returned by a read with an EMPTY cursor is not judged (C21); order and duplicates of listings are not judged (C42): listings are compared as sets",
+	"metadata queries restricted to one shard group's time range: only data ⇒ listed is demanded; a name whose data lives only in the other shard may or may not be listed",
+	"a write 'does not conflict' with a delete iff its point is outside the delete's time range or its series does not match the delete's predicate",
+	"part 2: sequentially consistent interleavings at the granularity of the modelled mutex/atomic operations; branching only at Store/epochTracker/guard/Shard/Engine/Cache operations (size/idle bookkeeping atomics and all other locks are passed silently when free); the writer enters at tsdb.Store.WriteToShard (what coordinator.PointsWriter calls per shard), not through the PointsWriter's goroutine + timeout timer",
+	"background compactions/retention are off (mini fixture); the level-compaction goroutine that DeleteSeriesRange starts has nothing to do with < 4 TSM files per shard",
+}
